@@ -30,12 +30,12 @@ LOWOK = ["Nsl/Model/Opt.lean", "Nsl/Proofs/Opt.lean", "Nsl/Proofs/OptSimBase.lea
 PROPS = {
     "C01": ("p_c01", "Nsl.Props.C01", ["Nsl.Props.C01Storage", "Nsl.Props.LowerOK"], SIM + STOR + LOWOK),
     "C02": ("p_c02", "Nsl.Props.C02", [], ["Nsl/Model/Opt.lean", "Nsl/Model/VM.lean", "Nsl/Model/IR.lean", "Nsl/Model/Val.lean", "Nsl/Proofs/VMSteps.lean", "Nsl/Proofs/Opt.lean", "Nsl/Proofs/OptSimBase.lean", "Nsl/Proofs/OptSimStep.lean", "Nsl/Proofs/OptSimKept.lean", "Nsl/Proofs/OptSimRun.lean", "Nsl/Proofs/OptSimPres.lean", "Nsl/Proofs/OptSimPasses.lean", "Nsl/Proofs/OptSimConv.lean", "Nsl/Proofs/StepLemmas.lean", "Nsl/Model/WF.lean", "Nsl/Props/C02.lean"]),
-    "C03": ("p_c03", "Nsl.Props.C03", [], SIM + ["Nsl/Props/C03.lean"]),
+    "C03": ("p_c03", "Nsl.Props.C03", [], SIM + STOR + LOWOK + ["Nsl/Props/C03.lean"]),
     "C04": ("p_c04", "Nsl.Props.C04", [], ["Nsl/Model/VM.lean", "Nsl/Model/Val.lean", "Nsl/Model/Lower.lean", "Nsl/Proofs/StepLemmas.lean", "Nsl/Props/C04.lean"]),
-    "C05": ("p_c05", "Nsl.Props.C05", [], SIM + ["Nsl/Props/C05.lean"]),
-    "C15": ("p_c15", "Nsl.Props.C15", [], SIM + ["Nsl/Props/C15.lean"]),
+    "C05": ("p_c05", "Nsl.Props.C05", [], SIM + STOR + LOWOK + ["Nsl/Props/C05.lean"]),
+    "C15": ("p_c15", "Nsl.Props.C15", [], SIM + STOR + LOWOK + ["Nsl/Props/C15.lean"]),
     # id: (python module, theorem module, [table-obligation modules], model source files to audit)
-    "C06": ("p_c06", "Nsl.Props.C06", [], ["Nsl/Model/Wasm.lean", "Nsl/Model/WasmEval.lean", "Nsl/Model/VM.lean", "Nsl/Proofs/Wasm.lean", "Nsl/Proofs/WasmGen.lean", "Nsl/Proofs/WasmEval.lean", "Nsl/Model/WasmRange.lean", "Nsl/Proofs/WasmInt.lean", "Nsl/Props/C06.lean"]),
+    "C06": ("p_c06", "Nsl.Props.C06", [], ["Nsl/Model/Wasm.lean", "Nsl/Model/WasmEval.lean", "Nsl/Model/VM.lean", "Nsl/Proofs/Wasm.lean", "Nsl/Proofs/WasmGen.lean", "Nsl/Proofs/WasmEval.lean", "Nsl/Model/WasmRange.lean", "Nsl/Proofs/WasmInt.lean", "Nsl/Proofs/WasmUInt.lean", "Nsl/Props/C06.lean"]),
     "C07": ("p_c07", "Nsl.Props.C07", [], ["Nsl/Model/Wasm.lean", "Nsl/Model/Leb.lean", "Nsl/Proofs/Wasm.lean", "Nsl/Proofs/WasmGen.lean", "Nsl/Proofs/Leb.lean", "Nsl/Props/C07.lean"]),
     "C08": ("p_c08", "Nsl.Props.C08", ["Nsl.Props.GenC08"], ["Nsl/Model/Prec.lean", "Nsl/Proofs/Prec.lean", "Nsl/Props/C08.lean", "Nsl/Props/GenC08.lean"]),
     "C09": ("p_c09", "Nsl.Props.C09", ["Nsl.Props.GenC09"], ["Nsl/Model/Types.lean", "Nsl/Proofs/Types.lean", "Nsl/Props/C09.lean", "Nsl/Props/GenC09.lean"]),
